@@ -167,7 +167,7 @@ def gen_annotations(rng, quick):
         if t not in seen:
             seen.add(t)
             trees.append(t)
-    per_shape = 5 if quick else 110
+    per_shape = 5 if quick else 40
     for n in range(1, 6):
         for shape in forests(n, 4):
             k = n_leaves(shape)
@@ -293,26 +293,26 @@ class Plan:
         for a in atoms:
             for b in atoms:
                 self._pair(a, b)
-        n2 = 220 if quick else 2500
+        n2 = 220 if quick else 1200
         for _ in range(n2):
             a = rng.choice(pool2) if rng.random() < 0.75 else rng.choice(atoms)
             b = rng.choice(pool2) if rng.random() < 0.75 else rng.choice(atoms)
             self._pair(a, b)
         if not quick:
-            for _ in range(2500):
+            for _ in range(1000):
                 self._pair(gen_clean_query(rng, 3), gen_clean_query(rng, rng.randint(1, 3)))
         # -- triples
         tri_atoms = atoms if not quick else [atoms[i] for i in (0, 1, 2, 3, 6, 9, 12, 14)]
         for a in tri_atoms:
             for b in tri_atoms:
                 for c in tri_atoms:
-                    if quick and rng.random() < 0.45:
+                    if rng.random() < (0.45 if quick else 0.6):
                         continue
                     self._triple(a, b, c)
-        for _ in range(220 if quick else 2500):
+        for _ in range(220 if quick else 1000):
             self._triple(*[rng.choice(pool2) if rng.random() < 0.6 else rng.choice(atoms) for _ in range(3)])
         if not quick:
-            for _ in range(1500):
+            for _ in range(600):
                 self._triple(*[gen_clean_query(rng, rng.randint(1, 3)) for _ in range(3)])
         # -- term-level queries whose meaning the property / the QueryHandler docstring spell out
         term_atoms = [a for a in atoms if a[0] == "t"]
